@@ -306,6 +306,14 @@ class Sections:
             lines.append('#[global] Instance %s_Fd_%s {T} : Fd_%s (%s T) %s := %s_f_%s.' % (name, fn, fn, name, fty, name, fn))
             args = ' '.join('v' if j == i else '(%s_f_%s s)' % (name, g['name']) for j, g in enumerate(flds))
             lines.append('#[global] Instance %s_Set_%s {T} : Set_%s (%s T) %s := fun v s => mk%s %s.' % (name, fn, fn, name, fty, name, args))
+        # wire format (correspondence check): flatten / read the record field by field, in declaration order
+        lines.append('#[global] Instance %s_Flat {T} `{Flat T} : Flat (%s T) := fun x => %s.' % (
+            name, name, ' ++ '.join('flat (%s_f_%s x)' % (name, f['name']) for f in flds) or '[]'))
+        rd = ''
+        for k, f in enumerate(flds):
+            rd += "let '(v%d, l) := rd (A:=%s) l in " % (k, em.ty(f['ty'], ctx))
+        lines.append('#[global] Instance %s_Rd {T} `{Rd T} : Rd (%s T) := fun l => %s(mk%s %s, l).' % (
+            name, name, rd, name, ' '.join('v%d' % k for k in range(len(flds)))))
         return '\n'.join(lines)
 
     def dn_instance(self, sec):
@@ -375,7 +383,7 @@ class Sections:
         em = self.em
         out = []
         out.append('(* GENERATED by tools/emit.py from the macro-expanded source of /repo -- do not edit *)')
-        out.append('From ND Require Import Overload Float Mat Opt.')
+        out.append('From ND Require Import Overload Float Mat Opt Wire.')
         imports = ['Classes']
         if sec.struct in VEC_STRUCTS:
             imports.append('Gen_Derivative')
@@ -503,6 +511,21 @@ def main():
     for fn, t in texts.items():
         ch = write_if_changed(os.path.join(outdir, fn), t)
     json.dump(cov, open(os.path.join(outdir, 'coverage.json'), 'w'), indent=1)
+    # record layouts for the correspondence driver (field order and kinds come from the source, not from a table)
+    structs = {}
+    for name, st in em.structs.items():
+        flds = []
+        for f in em.model_fields(st):
+            t = strip_ws(f['ty']['text'])
+            m = re.match(r'^Derivative<T,F,(\w+),(\w+)>$', t)
+            if t == 'T':
+                flds.append({'name': f['name'], 'kind': 'T'})
+            elif m:
+                flds.append({'name': f['name'], 'kind': 'D', 'rows': m.group(1), 'cols': m.group(2)})
+            else:
+                flds.append({'name': f['name'], 'kind': 'other', 'ty': t})
+        structs[name] = flds
+    json.dump(structs, open(os.path.join(outdir, 'structs.json'), 'w'), indent=1)
     why = defaultdict(int)
     for c in cov:
         if not c['translated']:
